@@ -11,6 +11,7 @@ import (
 	peer "github.com/libp2p/go-libp2p/core/peer"
 
 	"github.com/ipfs/go-graphsync"
+	"github.com/ipfs/go-graphsync/verifhook"
 )
 
 const thawSpeed = time.Millisecond * 100
@@ -122,6 +123,10 @@ func (tq *WorkerTaskQueue) worker(executor Executor) {
 			case <-tq.ctx.Done():
 				return
 			case <-tq.workSignal:
+				if verifhook.Enabled {
+					// whoever pushes tasks may still be pushing more; a simulator can let it finish first
+					verifhook.Yield("taskqueue.beforePop", "", tq)
+				}
 				tq.lockTopics.Lock()
 				pid, tasks, _ = tq.PeerTaskQueue.PopTasks(targetWork)
 				tq.lockTopics.Unlock()
